@@ -372,6 +372,9 @@ pub fn make_world(spec: &str) -> Option<Box<dyn World>> {
 }
 
 fn extra_worker(_tier: &str, task: &Value, _io: &mut WorkerIo) -> Option<Value> {
+    if let Some(v) = super::bytesfam::worker(task, _io) {
+        return Some(v);
+    }
     if let Some(s) = task.get("structure") {
         return Some(structure_search(s["members"].as_u64().unwrap_or(3) as usize, s["levels"].as_u64().unwrap_or(3), s["max_states"].as_u64().unwrap_or(200_000) as usize));
     }
@@ -401,7 +404,8 @@ fn extra_parent(pool: &Pool, tier: &str, report: &mut RunReport) -> Value {
             if let Some(o) = v2.as_object_mut() {
                 o.remove("devs");
             }
-            json!({"skiplist_structure_search": v2})
+            let bytes_cov = super::bytesfam::parent(pool, report, "C04", &["zset"]);
+            json!({"skiplist_structure_search": v2, "byte_transparency": bytes_cov["byte_transparency"]})
         }
         Outcome::Died { status, case } => {
             report.machinery_errors.push(format!("structure search worker died: {} {:?}", status, case));
